@@ -206,6 +206,19 @@ func (o *Observation) attempts() []attempt {
 		cand(c.ProxyCloseAt, "proxy-closed-the-connection")
 		cand(c.EOFAt, "backend-saw-the-connection-closed")
 		cand(o.ClientCloseAt, "harness-about-to-close-the-client")
+		if c.Req < 0 {
+			// an attempt the proxy started itself (initial join, fallback) and ended itself
+			// (its own connection timeout): the request-context watcher reports the failure
+			// first and closes the connection right after, so the failure handling (which
+			// fires KickedFromServerEvent for that server) may dial the next server a moment
+			// before the close. The attempt is decided when that event fires.
+			for _, e := range o.Events {
+				if e.Kind == "kicked" && e.Server == c.Server && e.At > c.DialAt {
+					cand(e.At, "proxy-reported-the-failure-of-its-own-attempt")
+					break
+				}
+			}
+		}
 		if r := o.reqByID(c.Req); r != nil {
 			cand(r.CancelAt, "harness-about-to-cancel-the-context")
 			cand(r.ReturnAt, "request-returned")
@@ -482,6 +495,17 @@ func judgeRound(o *Observation, ri int) []Finding {
 		if rd.Recovery != nil && rd.Recovery.Target == after.Cur {
 			ok = true
 		}
+		// a KickedFromServerEvent subscriber of the scenario may have redirected the player
+		switch sc.KickResult {
+		case "redirect-other":
+			ok = true
+		case "redirect-same":
+			for qi := range rd.Reqs {
+				if rd.Reqs[qi].Target == after.Cur {
+					ok = true
+				}
+			}
+		}
 		if !ok {
 			add("failure:player-on-unrelated-server",
 				fmt.Sprintf("after a kick the player rests on %s, which is neither the previous server %q, a fallback %v nor a successful destination", after.Cur, before.Cur, sc.Try))
@@ -496,6 +520,49 @@ func judgeRound(o *Observation, ri int) []Finding {
 	return fs
 }
 
+// judgePosts: clause (b) at the first moment it is observable through the API. When the proxy
+// fires ServerPostConnectEvent the join is complete and recorded: CurrentServer() is the new
+// server, the player is listed on exactly that server, and every backend connection the
+// player had joined before (previous server, a server that kicked it) has been closed by the
+// proxy - also when the join is the fallback after a kick by the current server. Only
+// connections that had sent JoinGame are looked at (a failed attempt's connection may
+// legitimately be closed a moment after its request returned), and a connection the fake
+// backend closed itself counts as closed.
+func judgePosts(o *Observation) []Finding {
+	var fs []Finding
+	for i := range o.Posts {
+		po := &o.Posts[i]
+		var listed []string
+		for _, n := range serverNames {
+			if len(po.Lists[n]) > 0 {
+				listed = append(listed, n)
+			}
+		}
+		if po.Cur == "" {
+			// a later switch (1.20.2+ gives the current server up when the next backend
+			// accepts the login) may already be under way: nothing to judge
+			continue
+		}
+		var others, own []string
+		for _, c := range po.OpenJoined {
+			if strings.HasPrefix(c, po.Cur+"#") {
+				own = append(own, c)
+			} else {
+				others = append(others, c)
+			}
+		}
+		switch {
+		case len(listed) != 1 || listed[0] != po.Cur:
+			fs = append(fs, Finding{Sig: "post-connect:player-list-mismatch", Round: -1,
+				What: fmt.Sprintf("ServerPostConnectEvent at t=%d: CurrentServer()=%s but the player is listed on %v (joined backend connections not closed: %v)", po.At, po.Cur, listed, po.OpenJoined)})
+		case len(others) > 0 || len(own) > 1:
+			fs = append(fs, Finding{Sig: "post-connect:previous-backend-connection-not-closed", Round: -1,
+				What: fmt.Sprintf("ServerPostConnectEvent at t=%d: CurrentServer()=%s, but the joined backend connections the proxy has not closed are %v", po.At, po.Cur, po.OpenJoined)})
+		}
+	}
+	return fs
+}
+
 // Judge runs all clauses over one observation.
 func Judge(o *Observation) []Finding {
 	var fs []Finding
@@ -503,6 +570,7 @@ func Judge(o *Observation) []Finding {
 		return []Finding{{Sig: "aborted", Inconclusive: true, What: o.Aborted}}
 	}
 	fs = append(fs, judgeAttempts(o)...)
+	fs = append(fs, judgePosts(o)...)
 
 	// initial join
 	sc := &o.Sc
